@@ -3,8 +3,8 @@
    (content_eq7 compares norm_msg (trunc_msg _) slot by slot). *)
 From Coq Require Import NArith ZArith List Bool String.
 From FitV Require Import Model.Values Model.Bytes Model.Profile Model.Reflect Model.Components Model.Route Model.IO
-  Model.Encode Model.Decode Spec.RoundTrip
-  Spec.RouteSpec Proofs.C07Fixpoint Proofs.C07Reencode Proofs.C07DecodeWf Proofs.C07Integrity Proofs.StreamDenoteDecode Proofs.EncExamples.
+  Model.Header Model.Encode Model.Decode Spec.RoundTrip Proofs.EncodeProofs
+  Spec.RouteSpec Proofs.C07Fixpoint Proofs.C07Reencode Proofs.C07DecodeWf Proofs.C07Integrity Proofs.C07CsdLength Proofs.C07Generations Proofs.C06Route Proofs.StreamDenoteDecode Proofs.EncExamples.
 Import ListNotations.
 Local Open Scope N_scope.
 
@@ -154,6 +154,87 @@ Proof. exact content_eq7_sym. Qed.
 Theorem C07_content_eq7_trans : forall f1 f2 f3, content_eq7 f1 f2 = true -> content_eq7 f2 f3 = true -> content_eq7 f1 f3 = true.
 Proof. exact content_eq7_trans. Qed.
 Print Assumptions C07_content_eq7_trans.
+
+(* ---- the value-equality clause ("... decodes successfully with the same per-type message counts and equal numeric,
+   time and coordinate field values ...; encoding that second result again yields the same decoded content").
+   FULL STATEMENT (refuted) for records that carry a compressed_speed_distance array; the clause is claimed only for
+   decoded Files none of whose records has a compressed_speed_distance source (array nil, empty, or 0xFF in its first
+   three bytes: csd_free of Spec/RoundTrip.v), for two recorded reasons:
+   (1) csd_array_length: RecordMsg.expandComponents expands the array only when it has exactly 3 bytes.  The validator
+       accepts a definition that gives field 8 any size; Decode then leaves Speed/Distance alone; Encode pads or cuts the
+       array to the profile's 3 bytes; the next Decode DOES expand.  Witnesses below: a 2-byte and a 5-byte array.
+   (2) csd_accumulator: with exactly 3 bytes Speed and Distance are derived in both generations, but Distance continues
+       the process-wide accumulator and EnhancedSpeed follows the derived Speed one generation late (third witness:
+       even from fresh accumulators generation 1 has EnhancedSpeed invalid and generation 2 has 528).
+   csd_obs pay = (array, Speed, Distance) of the record in generation 1, the same in generation 2 (Decode of Encode
+   of generation 1, little endian, fresh accumulators) and the verdict of content_eq7. *)
+Theorem C07_reencode_csd_array_length_refuted :
+  csd_obs [0x10; 0x32] =
+  Some (VList [VU 16; VU 50], VU 65535, VU 4294967295, (VList [VU 16; VU 50; VU 255], VU 528, VU 243), false).
+Proof. exact reencode_csd_array_length_refuted. Qed.
+Print Assumptions C07_reencode_csd_array_length_refuted.
+Theorem C07_reencode_csd_array_length5_refuted :
+  csd_obs [0x10; 0x32; 0x54; 0x76; 0x98] =
+  Some (VList [VU 16; VU 50; VU 84; VU 118; VU 152], VU 65535, VU 4294967295, (VList [VU 16; VU 50; VU 84], VU 528, VU 67), false).
+Proof. exact reencode_csd_array_length5_refuted. Qed.
+Theorem C07_reencode_csd_three_bytes :
+  csd_obs [0x10; 0x32; 0x54] =
+  Some (VList [VU 16; VU 50; VU 84], VU 528, VU 67, (VList [VU 16; VU 50; VU 84], VU 528, VU 67), false) /\
+  match gens [0x10; 0x32; 0x54] with
+  | Some (f1, f2) => match first_record f1, first_record f2 with
+                     | Some m1, Some m2 => (fld m1 "EnhancedSpeed", fld m2 "EnhancedSpeed") = (VU 4294967295, VU 528)
+                     | _, _ => False
+                     end
+  | None => False
+  end.
+Proof. exact reencode_csd_three_bytes. Qed.
+
+(* ---- the positive counterpart: value equality between generation 1 and generation 2.  For every File f1 that Decode
+   returned (FileId.Type still naming the container) whose truncation to the profile's fixed lengths (trunc_file:
+   arrays cut to the profile length, strings to length - 1, exactly what Encode keeps) is in the C06 domain -- in
+   particular no compressed_speed_distance source -- and, for the six string fields of profile length 1, holds no
+   non-empty string (Encode writes a lone terminator for them), arrays below 256 elements: if Encode f1 succeeds,
+   Decode of its output succeeds and returns f2 with content_eq6 (trunc_file f1) f2: same file type, per slot the
+   same number of messages in the same order, field-for-field equal up to the profile's fixed lengths, trailing
+   invalid padding, wall clock of local times and the component rule.  Proof: Encode f1 and Encode (trunc_file f1)
+   write the same bytes (encode_trunc), then C06_roundtrip. *)
+Theorem C07_encode_trunc : forall f be bs f',
+  wf_file f = true -> len1_strings_empty f = true -> arrays_short f = true ->
+  encode f be = EOk (bs, f') -> exists f'', encode (trunc_file f) be = EOk (bs, f'').
+Proof. exact encode_trunc. Qed.
+Theorem C07_generations_eq_decoded : forall o0 g0 rd0 fuel0 h0 f1 rd0' g0' q0 be bs f1' o g rd fuel extra,
+  Forall (fun b => b < 256) (rd_data rd0) ->
+  entry_Decode o0 g0 rd0 fuel0 = TDone (mk_dres None h0 (Some f1) rd0' g0' q0) ->
+  f_inited f1 = Some (file_type f1) ->
+  len1_strings_empty f1 = true -> arrays_short f1 = true ->
+  in_domain (trunc_file f1) = true -> ginv g ->
+  encode f1 be = EOk (bs, f1') -> N.of_nat (List.length bs) < 4294967296 ->
+  rd_data rd = bs ++ extra -> (List.length (rd_data rd) + List.length (rd_sched rd) < fuel)%nat ->
+  exists rd' f2 g' q h,
+    entry_Decode o g rd fuel = TDone (mk_dres None h (Some f2) rd' g' q) /\
+    content_eq6 (trunc_file f1) f2 = true /\ ginv g' /\
+    rd_data rd' = extra /\ rd_pos rd' = (rd_pos rd + List.length bs)%nat.
+Proof. exact generations_eq_decoded. Qed.
+Print Assumptions C07_generations_eq_decoded.
+(* satisfiable, with a File that is not itself in the C06 domain (a 25-byte ProductName, profile length 20, and a
+   6-element Speed1s, profile length 5); on it both byte orders give content_eq6 (trunc_file f) f2 and content_eq7 f f2;
+   the two side conditions are necessary (bytes of Encode f and Encode (trunc_file f) differ otherwise) *)
+Example C07_generations_example :
+  wf_file gen_file && wf_header (f_header gen_file) && proto_ok (h_proto (f_header gen_file)) &&
+  (h_profile (f_header gen_file) <? 65536) && len1_strings_empty gen_file && arrays_short gen_file &&
+  in_domain (trunc_file gen_file) && negb (in_domain gen_file) &&
+  enc_small gen_file true && enc_small gen_file false &&
+  same_bytes gen_file (trunc_file gen_file) true && same_bytes gen_file (trunc_file gen_file) false = true.
+Proof. exact generations_example. Qed.
+Example C07_len1_string_differs :
+  wf_file len1_file && arrays_short len1_file && negb (len1_strings_empty len1_file) &&
+  enc_small len1_file false && enc_small (trunc_file len1_file) false &&
+  negb (same_bytes len1_file (trunc_file len1_file) false) = true.
+Proof. exact len1_string_differs. Qed.
+(* not proved in general: that every decoded File satisfies len1_strings_empty / arrays_short (true on the explored
+   ones), and the step from content_eq6 (trunc_file f1) f2 to content_eq7 f1 f2 (needs: expansion is idempotent on
+   already expanded messages, generation 2 holds arrays of exactly the profile length); the harness decides
+   content_eq7 between generations per accepted input *)
 
 (* FULL STATEMENT (refuted): Encode succeeds on every File Decode returns.  The decoder hands out any
    bytes before the first NUL as a string; encodeString refuses what is not valid UTF-8 (known finding
